@@ -265,6 +265,8 @@ theorem mask_some (str msk : List Nat) (start end_ : Int) : ∃ r, mask str msk 
   simp only []
   split
   · exact ⟨_, rfl⟩
+  split
+  · exact ⟨_, rfl⟩
   · split
     · exact ⟨_, rfl⟩
     · obtain ⟨si, ei, hl, h1, h2⟩ := maskLoop_some str start (↑(runeCount str) - end_)
